@@ -16,3 +16,63 @@ pub open spec fn member_challenges(ctx: Seq<TEvent>, statements: Seq<RangeStatem
     let g = statements[0].generators;
     spec_challenges(ctx, g.pc_gens.h_base_compressed, g.pc_gens.g_base_compressed_vec@, g.bp_gens.gens_capacity, g.pc_gens.extension_degree as usize, statements[i], proofs[i])
 }
+// ---- batch weights (C08): each proof's final transcript (responses absorbed) keys an RNG whose first u64 is absorbed into the
+// weight transcript; after ALL proofs were absorbed one RNG is built from it and weight p is its p-th nonzero draw.
+pub open spec fn member_full_log(ctx: Seq<TEvent>, statements: Seq<RangeStatement<P>>, proofs: Seq<RangeProof<P>>, i: int) -> Seq<TEvent> {
+    let g = statements[0].generators;
+    full_log(ctx, g.pc_gens.h_base_compressed, g.pc_gens.g_base_compressed_vec@, g.bp_gens.gens_capacity, g.pc_gens.extension_degree as usize, statements[i], proofs[i])
+}
+pub open spec fn weight_log(ctxs: Seq<Seq<TEvent>>, statements: Seq<RangeStatement<P>>, proofs: Seq<RangeProof<P>>, k: nat) -> Seq<TEvent>
+    decreases k
+{
+    if k == 0 { transcript_init_log(b"Bulletproofs+ verifier weights"@) } else {
+        weight_log(ctxs, statements, proofs, (k - 1) as nat).push(TEvent::Append(b"proof"@,
+            le64(rng_u64(trng_state(member_full_log(ctxs[k - 1], statements, proofs, k - 1), None, null_rng_state())))))
+    }
+}
+// ws are successive first-nonzero draws of one RNG stream that starts in st0 and ends in st_end
+#[verifier::opaque]
+pub open spec fn weights_chain(ws: Seq<Scalar>, st0: RngSt, st_end: RngSt) -> bool {
+    exists|sts: Seq<RngSt>| #![trigger sts.len()] {
+        &&& sts.len() == ws.len() + 1
+        &&& sts[0] == st0
+        &&& sts[ws.len() as int] == st_end
+        &&& forall|p: int| 0 <= p < ws.len() ==> rnz_drawn::<TranscriptRng>(#[trigger] sts[p], ws[p], sts[p + 1])
+    }
+}
+pub open spec fn ctx_logs(trs: Seq<Transcript>) -> Seq<Seq<TEvent>> { Seq::new(trs.len(), |p: int| trs[p].log()) }
+pub proof fn lemma_weights_chain_empty(st0: RngSt)
+    ensures weights_chain(Seq::<Scalar>::empty(), st0, st0)
+{
+    reveal(weights_chain);
+    let sts = seq![st0];
+    assert(sts.len() == 1 && sts[0] == st0);
+}
+pub proof fn lemma_weights_chain_push(ws: Seq<Scalar>, st0: RngSt, mid: RngSt, w: Scalar, st_end: RngSt)
+    requires weights_chain(ws, st0, mid), rnz_drawn::<TranscriptRng>(mid, w, st_end)
+    ensures weights_chain(ws.push(w), st0, st_end)
+{
+    reveal(weights_chain);
+    let sts = choose|sts: Seq<RngSt>| #![trigger sts.len()] sts.len() == ws.len() + 1 && sts[0] == st0 && sts[ws.len() as int] == mid
+        && forall|p: int| 0 <= p < ws.len() ==> rnz_drawn::<TranscriptRng>(#[trigger] sts[p], ws[p], sts[p + 1]);
+    let sts2 = sts.push(st_end);
+    let wsp = ws.push(w);
+    assert(sts2.len() == wsp.len() + 1 && sts2[0] == st0 && sts2[wsp.len() as int] == st_end);
+    assert forall|p: int| 0 <= p < wsp.len() implies rnz_drawn::<TranscriptRng>(#[trigger] sts2[p], wsp[p], sts2[p + 1]) by {
+        if p < ws.len() { assert(sts2[p] == sts[p] && sts2[p + 1] == sts[p + 1] && wsp[p] == ws[p]); }
+        else { assert(sts2[p] == mid && wsp[p] == w && sts2[p + 1] == st_end); }
+    }
+}
+// C05: shape checks and decodability that every accepted proof passed
+pub open spec fn proof_shape_ok(pr: RangeProof<P>, st: RangeStatement<P>, n: usize) -> bool {
+    pr.li@.len() == pr.ri@.len() && vstd::arithmetic::power2::pow2(pr.li@.len()) == st.commitments@.len() * n
+}
+pub open spec fn proof_points_decode(pr: RangeProof<P>) -> bool {
+    &&& cp_decompress(pr.a) is Some && cp_decompress(pr.a1) is Some && cp_decompress(pr.b) is Some
+    &&& forall|q: int| 0 <= q < pr.li@.len() ==> cp_decompress(#[trigger] pr.li@[q]) is Some
+    &&& forall|q: int| 0 <= q < pr.ri@.len() ==> cp_decompress(#[trigger] pr.ri@[q]) is Some
+}
+pub open spec fn weights_ok(ws: Seq<Scalar>, st0: RngSt) -> bool { exists|st_end: RngSt| weights_chain(ws, st0, st_end) }
+pub open spec fn weight_rng_state0(trs: Seq<Transcript>, statements: Seq<RangeStatement<P>>, proofs: Seq<RangeProof<P>>) -> RngSt {
+    trng_state(weight_log(ctx_logs(trs), statements, proofs, proofs.len()), None, null_rng_state())
+}
